@@ -56,7 +56,7 @@ end
 def itemsReach : List Item → Nat → Bool
   | [], _ => false
   | .stmt s :: r, p => s.reach p || ((s.compl []).n && itemsReach r p)
-  | .decl kids :: r, p => kids.flowReach p || itemsReach r p
+  | .decl kids :: r, p => kids.flowReach p || (kids.compl.n && itemsReach r p)
 
 def itemsInner : List Item → Nat → Bool
   | [], _ => false
